@@ -8,3 +8,4 @@ import Crd.Props.C10
 #print axioms Crd.Props.C10.instance_survives
 #print axioms Crd.Props.C10.text_conv_output_readable
 #print axioms Crd.Props.C10.decoded_is_valid
+#print axioms Crd.Props.C10.key_pattern_modelled
